@@ -24,6 +24,7 @@ RX_WEIGHTS = {
     "lc_h": 4, "lc_h+r": 4, "lc_c": 1, "j3pi_h": 3, "j3pi_h+r": 3, "ksp_h": 2, "ksp_h+r": 2,
     "ppg_h": 2, "ppg_h+r": 2, "ppg_c": 1, "psi4_h": 1, "d3pi_h": 2, "d3pi_h+r": 2,
     "kkpi_h": 2, "kkpi_h+r": 2, "dkpp_h": 2, "dkpp_h+r": 2, "etac_c": 2, "etac_c+r": 1,
+    "lc_h#1": 1, "lc_h#1+r": 1, "ksp_h#1": 1, "kkpi_h#1": 1, "kkpi_h#1+r": 1, "gpp_c#1": 1, "etac_c#1+r": 1,
     "gpp_h@x": 1, "gpp_h@x+r": 1, "lc_h@x": 1, "lc_h@x+r": 1, "d3pi_h@x": 1, "d3pi_h@x+r": 1,
 }
 
@@ -37,7 +38,8 @@ def _twin(tag: str) -> str | None:
         return base + "@x" + relabelled
     return None
 
-DYN = ["non_dynamic", "bw", "bw", "bw_ff", "bw_analytic", "bw_swave", "bw_ffonly", "bw_edw", "probeA", "probeB", "non_dynamic_ff"]
+DYN = ["non_dynamic", "bw", "bw", "bw_ff", "bw_analytic", "bw_swave", "bw_ffonly", "bw_edw", "probeA", "probeB", "probeX",
+       "non_dynamic_ff"]
 ALIGN = ["none", "axis", "dpd1", "dpd2", "dpd3"]
 
 
